@@ -38,7 +38,8 @@ Entry(r, idx, t, forus) ==
    at |-> t, ttl |-> r.ttl, exp |-> t + LifeMs(r.ttl), fl |-> r.fl, forus |-> forus,
    vexp |-> t + LifeMs(r.ttl),   \* earliest instant from which the record MAY be treated as gone (verify)
    vdl |-> 0,                    \* deadline of the verify request that shortened this copy (0: none)
-   marks |-> {}]
+   marks |-> {},                 \* refresh marks (80, 85, 90, 95) since which the record was asked for (what is owed: C11, C17)
+   umarks |-> {}]                \* refresh marks used up as the explanation of a question (what is allowed: C19)
 
 SameRRSet(e, r, idx) == e.ty = r.ty /\ e.nk = r.n.k /\ (IsAddrTy(r.ty) => e.ifx = idx)
 
